@@ -895,6 +895,78 @@ def run_real_msg(case):
     return res
 
 
+
+# ------------------------------------------------------------------ histories on ONE Signature object (E2)
+SIG_EDITS = ["s:=s+1", "s:=n-s", "s:=s0", "r:=r+1", "r:=r0", "s:=2s", "s:=0", "s:=s0+n"]
+
+
+def gen_sig_history(tier, seed):
+    depth = 2 if tier == "quick" else 3
+    keys = [filler_int(seed, "c01shkey", 0, 1, N - 1)] + ([1, N - 1] if tier == "thorough" else [])
+    cases = []
+    for d in keys:
+        z = filler_int(seed, "c01shz", d % 97, 0, 2**256 - 1)
+        for L in range(1, depth + 1):
+            for q in itertools.product(range(len(SIG_EDITS)), repeat=L):
+                cases.append({"d": str(d), "z": str(z), "edits": list(q)})
+    return cases
+
+
+def run_sig_history(case):
+    """verify, then edit r / s of the SAME Signature object in place and verify again, on the same point object:
+    every verdict must be the reference predicate on the object's current (r, s)."""
+    from buidl import pecc
+
+    res = Res()
+    c = ec.SECP
+    d, z = int(case["d"]), int(case["z"])
+    r0, s0 = c.ecdsa_sign(d, z)
+    P = c.mulg(d)
+    pt = pecc.S256Point(P[0], P[1])
+    sig = pecc.Signature(r0, s0)
+    vc = {"engine": "sig-history", "case": case}
+    hist = []
+    res.states += 1
+
+    def check(step):
+        want = c.ecdsa_verify(P, z, sig.r, sig.s)
+        got = attempt(pt.verify, z, sig)
+        got = False if isinstance(got, Rejected) else bool(got)
+        if got != want:
+            kind = "accepts-after-in-place-edit" if got else "rejects-after-in-place-edit"
+            res.violation(f"C01/sig-history/{kind}/{step.split(':=')[0] if step else 'first'}", vc, {"history": hist, "verdict": got}, want, f"verify on a Signature object after the in-place edits {hist}: verdict differs from the ECDSA predicate on its current (r, s)")
+            return False
+        res.ok("verdict==predicate", nontrivial=(case["d"], tuple(hist)))
+        return True
+
+    if not check(""):
+        return res
+    for e in case["edits"]:
+        nm = SIG_EDITS[e]
+        hist.append(nm)
+        if nm == "s:=s+1":
+            sig.s = sig.s + 1
+        elif nm == "s:=n-s":
+            sig.s = (N - sig.s) % N
+        elif nm == "s:=s0":
+            sig.s = s0
+        elif nm == "r:=r+1":
+            sig.r = sig.r + 1
+        elif nm == "r:=r0":
+            sig.r = r0
+        elif nm == "s:=2s":
+            sig.s = 2 * sig.s % N
+        elif nm == "s:=0":
+            sig.s = 0
+        elif nm == "s:=s0+n":
+            sig.s = s0 + N
+        res.states += 1
+        res.transitions += 1
+        if not check(nm):
+            return res
+    return res
+
+
 def engines(tier, seed):
     toys = QUICK_TOYS if tier == "quick" else THOROUGH_TOYS
     es = []
@@ -971,6 +1043,14 @@ def engines(tier, seed):
             run_key_history,
             kind="E2",
             rule=f"explicit histories on ONE PrivateKey object and its point: every sequence of length <= 2 over {nops} operations ({', '.join(history_ops(tier))}) followed by sign(z): the signature is still the RFC 6979 signature of the original secret and the key's own point accepts it; keys with even and odd y (quick: odd-y key n-1 with all sequences of length <= 2 and even-y key 2 with length <= 1, 1 digest; thorough 6 keys x 3 digests, length <= 2); states = object states visited, transitions = operations executed",
+        ),
+        Engine(
+            "sig-history",
+            gen_sig_history,
+            run_sig_history,
+            kind="E2",
+            chunk=8,
+            rule=f"explicit histories on ONE Signature object and one point object: verify the RFC 6979 signature, then every sequence of length <= 2 (thorough 3) of in-place edits {SIG_EDITS} with verify after each edit; oracle: the ECDSA predicate on the object's current (r, s) (a stale value derived from an earlier r or s shows as a wrong verdict); states = object states, transitions = edits",
         ),
     ]
     return es
